@@ -93,3 +93,29 @@ def w1_forwarders(ctx, p, cfg, self_tys, traits=("std::io::Write",), rid="W1", f
             r.require(st in found, "wrapper-present:%s" % st, detail="impl of %s for %s found" % (traits, st))
         if floor is not None:
             r.floor("forwarding-methods", n, floor)
+
+
+def closure_captures(p, cf):
+    """capture expressions (in the parent's terms) of closure function cf, by slot index"""
+    parent = p.fns.get(cf.d.get("closure_parent") or "") or p.fns.get(cf.d.get("closure_of") or "")
+    if parent is None:
+        return None
+    for b, i, st in parent.assigns():
+        rv = st["rv"]
+        if rv["k"] == "agg" and rv.get("agg") == "closure" and rv.get("closure") == cf.path:
+            return [parent._operand(o, frozenset(), 30) for o in rv["fields"]], parent
+    return None
+
+
+def resolve_capture(p, cf, e):
+    """If e (deep-stripped, in closure cf) is a capture slot, return (expr in parent, parent fn)."""
+    from l4sa.core import deep_strip
+    e = deep_strip(e)
+    if e[0] == "field" and e[1] == ("param", 1) and str(e[2]).isdigit():
+        cc = closure_captures(p, cf)
+        if cc:
+            caps, parent = cc
+            k = int(e[2])
+            if k < len(caps):
+                return deep_strip(caps[k]), parent
+    return None
